@@ -112,6 +112,8 @@ impl Callback for UnspentCsvDump {
                 )
                 .as_bytes(),
             )?;
+            #[cfg(rbp_verif)]
+            crate::verif::ev("dump_row", &format!("\"key\":\"{}\",\"h\":{},\"value\":\"{}\",\"addr\":{}", crate::common::utils::arr_to_hex(key), value.block_height, value.value, crate::verif::js(&value.address)));
         }
 
         // Make sure everything is on disk before the file gets its final name
